@@ -76,7 +76,7 @@ Proof. split; [constructor | intros b []]. Qed.
 Lemma wf_alloc : forall s i pvf lvf r, wf s -> wf (mkst (next s :: live s) (S (next s)) i pvf lvf r).
 Proof.
   intros s i pvf lvf r [Hn Hb]. unfold bounded in *. split; cbn.
-  - constructor; [|assumption]. intro H. apply Hb in H. clear - H. Set Printing All. Show. Unset Printing All. lia.
+  - constructor; [|assumption]. intro H. apply Hb in H. lia.
   - intros b [H|H]; [lia | apply Hb in H; lia].
 Qed.
 
